@@ -19,6 +19,7 @@ EXPLANATION = (
 
 
 def run(ctx: Ctx) -> None:
+    solvers.rule_own_hof(ctx)
     from ..rules import memo as _memo
     _memo.rule_memo_sound(ctx, ['graphiq/solvers/solver_base.py', 'graphiq/solvers/evolutionary_solver.py'])
     solvers.rule_rng(ctx)
@@ -32,6 +33,7 @@ def run(ctx: Ctx) -> None:
 
 
 KNOCKOUTS = [
+    Knockout("hof-seeded-directly", "graphiq/solvers/hybrid_solvers.py", sub_once("        _, ideal_circuit = deterministic_solver.result\n", "        s0, ideal_circuit = deterministic_solver.result\n        self.hof[0] = (s0, ideal_circuit)\n"), "own.hof", "outside update_hof"),
     Knockout("hof-order-gt", SB, sub_once("                elif score < self.hof[i][0]:", "                elif score > self.hof[i][0]:"), "hof.order", "update_hof"),
     Knockout("hof-order-wrong-position", SB, sub_nth("self.hof.insert(i, (score, circuit.copy()))", "self.hof.insert(0, (score, circuit.copy()))", 1), "hof.order", "update_hof"),
     Knockout("C6-default-rng", EVO, sub_nth("        ind = np.random.randint(len(possible_edge_pairs))", "        ind = np.random.default_rng().integers(len(possible_edge_pairs))", 0),
